@@ -32,6 +32,7 @@ class Interp(Ops, ExprMixin, ContainerMixin, StmtMixin, CallMixin, BuiltinMixin)
         self.ids: dict[int, int] = {}
         self.spec_uses_contracts = False
         self.open_findings = None
+        self.concrete_model = None
         self.recur_done: dict[Any, set] = {}
 
     def reset_path(self) -> None:
